@@ -67,3 +67,63 @@ def corpus(tier):
         return W + T
     q = set(QUICK_T)
     return W + [t for t in T if os.path.basename(t['path']) in q]
+
+
+# ----------------------------------------------------------------------------- compiler-conditional code
+# The extractor is clang, the suite is built with g++.  Library headers that select code by compiler (`#if ... __clang__ ...`) are
+# analysed a second time with the condition evaluated the way g++ evaluates it: a shadow include directory holds a copy of each such
+# header - regenerated from the current source of the library on every run - in which only the `#if` / `#elif` lines that mention
+# __clang__ are rewritten (defined(__clang__) -> 0, defined(__GNUC__) -> 1).  TUs that instantiate code inside such a region are
+# parsed again against the shadow directory (corpus 'G').
+_COND = re.compile(r'^\s*#\s*(if|elif)\b.*__clang__')
+def conditional_regions():
+    """{header path relative to include/: [(first line, last line, original condition)]} for regions selected by __clang__"""
+    out = {}
+    root = os.path.join(REPO, 'include')
+    for hp in sorted(glob.glob(os.path.join(root, 'boost', 'msm', '**', '*.hpp'), recursive=True)):
+        lines = open(hp, errors='replace').read().split('\n')
+        regs = []
+        for i, line in enumerate(lines):
+            if not _COND.match(line): continue
+            depth = 0; j = i
+            for j in range(i, len(lines)):
+                t = lines[j].strip()
+                if re.match(r'#\s*if', t): depth += 1
+                elif re.match(r'#\s*endif', t):
+                    depth -= 1
+                    if depth == 0: break
+            regs.append((i + 1, j + 1, line.strip()))
+        if regs: out[os.path.relpath(hp, root)] = regs
+    return out
+
+def gcc_overlay():
+    """(shadow include directory, regions); the directory is rebuilt when the headers changed"""
+    import hashlib
+    regs = conditional_regions()
+    if not regs: return None, {}
+    root = os.path.join(REPO, 'include')
+    h = hashlib.sha256()
+    for rel in sorted(regs): h.update(rel.encode()); h.update(open(os.path.join(root, rel), 'rb').read())
+    base = os.path.join(VERIF, '.cache') if os.path.realpath(REPO) == '/repo' else os.path.join(REPO, '.factscache')
+    d = os.path.join(base, 'gcc-overlay-' + h.hexdigest()[:16])
+    if not os.path.isdir(d):
+        tmp = d + '.tmp%d' % os.getpid()
+        for rel in regs:
+            out = []
+            for line in open(os.path.join(root, rel), errors='replace').read().split('\n'):
+                if _COND.match(line):
+                    line = re.sub(r'defined\s*\(?\s*__clang__\s*\)?', '0', line)
+                    line = re.sub(r'defined\s*\(?\s*__GNUC__\s*\)?', '1', line)
+                out.append(line)
+            os.makedirs(os.path.dirname(os.path.join(tmp, rel)), exist_ok=True)
+            open(os.path.join(tmp, rel), 'w').write('\n'.join(out))
+        try: os.rename(tmp, d)
+        except OSError:
+            import shutil; shutil.rmtree(tmp, ignore_errors=True)
+    return d, regs
+
+def gcc_variant(tu, overlay):
+    v = dict(tu)
+    v['name'] = 'G/' + tu['name']; v['corpus'] = 'G'
+    v['flags'] = ['-I' + overlay] + list(tu['flags'])
+    return v
